@@ -126,7 +126,9 @@ def run(F, R):
     transport_registration_rule(F, R, 'N9', op='notify')
     from . import C08 as _c8
     _qctor = [b['id'] for b in queue_entry_points(F, M) if b.get('sig', '').find('-> core::result::Result<%s<' % M.queue_adt) >= 0]
-    _c8.h1_constructors(F, RuleProxy(R, {'H3': 'N6'}, only=lambda inst: inst.endswith('arg-29')), M, _qctor)
+    # N10: a notification sent before DRIVER_OK is one the device may ignore: constructors kick their pre-filled queues only after
+    # finish_init (C08.H1)
+    _c8.h1_constructors(F, RuleProxy(R, {'H3': 'N6', 'H1': 'N10'}, only=lambda inst: inst.endswith('arg-29') or inst.endswith(':no-notify-before-driver-ok')), M, _qctor)
 
 
 def n5_suppression_siblings(F, R, M, roles):
